@@ -14,8 +14,15 @@ THEOREMS = ["LNN.C02_sound",
             "LNN.C02_no_model_contradiction",
             "LNN.C02_no_model_contradiction_infer",
             "LNN.C02_no_leak",
-            "LNN.C02_no_leak_reads"]
-MODULES = ["LnnVerif.Props.C02"]
+            "LNN.C02_no_leak_reads",
+            # never tighter than exhaustive propagation over the ground instances (Lemmas/FolTight.lean)
+            "LNN.C02_never_tighter_call",
+            "LNN.C02_never_tighter",
+            "LNN.C02_never_tighter_infer",
+            "LNN.C02_closed_iff_ground",
+            "LNN.C02_never_tighter_than_ground_fixpoint",
+            "LNN.C02_point_is_closed"]
+MODULES = ["LnnVerif.Props.C02", "LnnVerif.Props.C02Tight"]
 
 
 def oracle(rec):
